@@ -394,7 +394,7 @@ def one_case(ctx, rng, env, stats):
 
 
 def run(ctx):
-    monitors.install(ctx)
+    monitors.install(ctx, tokalg=False)
     import collections
     rng = ctx.rng
     env = exprs.make_env()
